@@ -72,7 +72,7 @@ pub fn gen_case(rng: &mut Rng, reader_heavy: bool, thorough: bool) -> SchedCase 
   let in_memory = reader_heavy && rng.chance(1, 4);
   let cfg = Cfg {
     storage: if in_memory { StorageKind::Mem } else { StorageKind::Fs },
-    profile: *rng.pick(&[Profile::Basic, Profile::Basic, Profile::Nested]),
+    profile: *rng.pick(&[Profile::Basic, Profile::Basic, Profile::Nested, Profile::Rich]),
     positions: rng.chance(1, 2),
     ids: 1 + rng.usize(3),
     transparent: false,
